@@ -111,6 +111,7 @@ func (m *Machine) RunPath(entry *ssa.Function, item WorkItem, solver *sym.Solver
 	solver.Reset()
 	p := &Path{Ctx: sym.NewCtx(), Solver: solver, Prefix: item.Prefix, Covers: map[string]bool{}, Known: map[string]bool{},
 		Notes: map[string]int64{}, MaxDecisions: opt.MaxDecisions, Fallback: m.fallback,
+		Emit: m.emit, implied: map[*sym.Term]bool{},
 		dom: map[*sym.Term]*[4]uint64{}, impure: map[*sym.Term]bool{}, varsOf: map[*sym.Term]*sym.Term{}, ttab: map[*sym.Term]*[4]uint64{}}
 	if len(item.Prefix) == 0 {
 		p.setModel(map[string]uint64{})
@@ -272,6 +273,12 @@ func Explore(P *Program, entry *ssa.Function, opt Options) *Summary {
 			busy++
 			mu.Unlock()
 
+			m.emit = func(w WorkItem) {
+				mu.Lock()
+				work = append(work, w)
+				cond.Signal()
+				mu.Unlock()
+			}
 			res := m.RunPath(entry, item, solver, &opt)
 
 			mu.Lock()
@@ -319,7 +326,6 @@ func Explore(P *Program, entry *ssa.Function, opt Options) *Summary {
 			if len(sum.Samples) < 40 && res.Status == PathDone && (opt.SampleEvery <= 1 || sum.Paths%opt.SampleEvery == 0) {
 				sum.Samples = append(sum.Samples, *res)
 			}
-			m.path.NewWork = append([]WorkItem(nil), m.path.NewWork...)
 			work = append(work, m.path.NewWork...)
 			if opt.MaxPaths > 0 && sum.Paths >= opt.MaxPaths && (len(work) > 0 || busy > 0) {
 				stop = true
